@@ -168,6 +168,15 @@ def fd_sender_steps(ctx, L, rule="R-FD-SENDER"):
         last = r.recs[-1].ev.node if r.recs else f.node
         if name in ("SENDING_RTS_CTS", "SENDING_BAM") and dts:
             note("%s: every segment sent advances the segment index" % name, len(adv) >= len(dts), dts[0][1].node)
+        if name == "SENDING_RTS_CTS" and dts:
+            # the segment index of a DT that is sent is below the segment count: the loop test is strict
+            i0 = dts[0][0]
+            strict = any(g[0] == "cmp" and g[1] == "<" and p is True and any(y[0] == "sub" and y[2] == ("c", "next_packet_to_send") for y in (g[2],))
+                         and any(y[0] == "sub" and y[2] == ("c", "num_segments") for y in (g[3],)) for g, p in lits(r.guards(i0)))
+            loose = any(g[0] == "cmp" and g[1] == "<" and p is False and any(y[0] == "sub" and y[2] == ("c", "num_segments") for y in (g[2],))
+                        and any(y[0] == "sub" and y[2] == ("c", "next_packet_to_send") for y in (g[3],)) for g, p in lits(r.guards(i0)))
+            if strict or loose:
+                note("SENDING_RTS_CTS: a segment is sent only while the index is below the segment count", strict and not loose, dts[0][1].node)
         if name == "SENDING_RTS_CTS" and st.get("WAITING_EOM_ACK") in new_state:
             note("SENDING_RTS_CTS: the end-of-message status follows the last segment", bool(eoms), last)
         if name == "SENDING_EOM_STATUS":
